@@ -1,0 +1,129 @@
+//go:build verif
+
+// Contracts for validation.go (properties C02, C03, C04). Comment-only.
+
+package pubsub
+
+// Number of inline verdicts of each kind produced by this call (direct calls of validateMsg).
+//@ spec fn nRej() int = countret((*validatorImpl).validateMsg, ValidationReject) - old(countret((*validatorImpl).validateMsg, ValidationReject))
+//@ spec fn nIgn() int = countret((*validatorImpl).validateMsg, ValidationIgnore) - old(countret((*validatorImpl).validateMsg, ValidationIgnore))
+//@ spec fn nVal() int = calls((*validatorImpl).validateMsg) - old(calls((*validatorImpl).validateMsg))
+//@ spec fn nOnValid() int = calls(dyn:onValid) - old(calls(dyn:onValid))
+//@ spec fn nMark() int = calls((*PubSub).markSeen) - old(calls((*PubSub).markSeen))
+//@ spec fn nRejTrace() int = calls((*pubsubTracer).RejectMessage) - old(calls((*pubsubTracer).RejectMessage))
+//@ spec fn isVErr(e error, r string) bool = typeis(e, ValidationError) && unbox(e, ValidationError).Reason == r
+
+// A validator's verdict is Accept, Reject or Ignore; any other value is treated as Ignore.
+//@ func (*validatorImpl).validateMsg
+//@   property C04
+//@   dynpure validate cancel
+//@   noframe
+//@   ensures range: result == ValidationAccept || result == ValidationReject || result == ValidationIgnore
+//@   ensures once: calls(dyn:validate) == old(calls(dyn:validate)) + 1
+//@   ensures faithful: lastret(dyn:validate) == ValidationAccept || lastret(dyn:validate) == ValidationReject ||
+//@        lastret(dyn:validate) == ValidationIgnore ==> result == lastret(dyn:validate)
+//@   ensures unknown-is-ignore: lastret(dyn:validate) != ValidationAccept && lastret(dyn:validate) != ValidationReject ==> result == ValidationIgnore
+//@   ensures same-message: lastarg(dyn:validate, 2) == msg && lastarg(dyn:validate, 1) == src
+
+//@ func (*validation).validate
+//@   property C02 C03 C04
+//@   dynpure onValid
+//@   requires msg: msg != nil && msg.Message != nil
+//@   noframe
+//@   loop 1 invariant counters: nVal() == 0 && nOnValid() == 0 && nMark() == 1 && lastret((*PubSub).markSeen) && nRej() == 0 && nIgn() == 0 && nRejTrace() == 0
+//@   loop 1 invariant sync: synchronous ==> len(async) == 0
+//@   loop 2 invariant counters: nOnValid() == 0 && nMark() == 1 && lastret((*PubSub).markSeen) && nRej() == 0 && nRejTrace() == 0
+//@   loop 2 invariant verdict: (result == ValidationIgnore) == (nIgn() > 0) && (result == ValidationAccept || result == ValidationIgnore)
+//@   loop 2 invariant sync: synchronous ==> len(async) == 0
+//@   ensures signature-checked: old(msg.Message.Signature) != nil ==>
+//@        calls((*validation).validateSignature) == old(calls((*validation).validateSignature)) + 1 && lastarg((*validation).validateSignature, 1) == msg
+//@   ensures bad-signature: calls((*validation).validateSignature) > old(calls((*validation).validateSignature)) && !lastret((*validation).validateSignature) ==>
+//@        isVErr(result, RejectInvalidSignature) && nMark() == 0 && nVal() == 0 && nOnValid() == 0 &&
+//@        nRejTrace() == 1 && lastarg((*pubsubTracer).RejectMessage, 2) == RejectInvalidSignature
+//@   ensures marks-once: nMark() <= 1
+//@   ensures duplicate: nMark() == 1 && !lastret((*PubSub).markSeen) ==> typeis(result, dupeErr) && nVal() == 0 && nOnValid() == 0 && nRejTrace() == 0
+//@   ensures gate: nVal() > 0 || nOnValid() > 0 ==> nMark() == 1 && lastret((*PubSub).markSeen) &&
+//@        lastarg((*PubSub).markSeen, 1) == lastret((*msgIDGenerator).ID) && lastarg((*msgIDGenerator).ID, 1) == msg
+//@   ensures rejected: nRej() > 0 ==> isVErr(result, RejectValidationFailed) && nOnValid() == 0 &&
+//@        nRejTrace() == 1 && lastarg((*pubsubTracer).RejectMessage, 2) == RejectValidationFailed
+//@   ensures sync-all-inline: nMark() == 1 && lastret((*PubSub).markSeen) && synchronous ==> len(async) == 0
+//@   ensures ignored: nMark() == 1 && lastret((*PubSub).markSeen) && nRej() == 0 && nIgn() > 0 && len(async) == 0 ==>
+//@        isVErr(result, RejectValidationIgnored) && nOnValid() == 0 && nRejTrace() == 1 &&
+//@        lastarg((*pubsubTracer).RejectMessage, 2) == RejectValidationIgnored
+//@   ensures accepted: nMark() == 1 && lastret((*PubSub).markSeen) && nRej() == 0 && nIgn() == 0 && len(async) == 0 ==>
+//@        nOnValid() == 1 && lastarg(dyn:onValid, 0) == msg && result == lastret(dyn:onValid) && nRejTrace() == 0
+//@   ensures onvalid-only-accept: nOnValid() > 0 ==> nRej() == 0 && nIgn() == 0 && len(async) == 0 && nOnValid() == 1
+//@   ensures throttled: nMark() == 1 && lastret((*PubSub).markSeen) && nRej() == 0 && len(async) > 0 ==> nOnValid() == 0 && result == nil
+
+//@ spec fn rcv(x int) int = countrecv(x) - old(countrecv(x))
+
+// validateSingleTopic: one validator, or "throttled" when its own throttle is exhausted.
+//@ func (*validation).validateSingleTopic
+//@   property C04
+//@   noframe
+//@   ensures range: result == ValidationAccept || result == ValidationReject || result == ValidationIgnore || result == validationThrottled
+//@   ensures faithful: calls((*validatorImpl).validateMsg) > old(calls((*validatorImpl).validateMsg)) ==> result == lastret((*validatorImpl).validateMsg) && nVal() == 1
+//@   ensures throttled: nVal() == 0 ==> result == validationThrottled
+
+// validateTopic combines the verdicts taken from the result channel: Reject wins (and stops the
+// collection), then throttled, then Ignore, else Accept.
+//@ func (*validation).validateTopic
+//@   property C04
+//@   dynpure cancel
+//@   noframe
+//@   loop 2 invariant combine: rcv(ValidationReject) == 0 &&
+//@        (result == validationThrottled) == (rcv(validationThrottled) > 0) &&
+//@        (result == ValidationIgnore) == (rcv(validationThrottled) == 0 && rcv(ValidationIgnore) > 0) &&
+//@        (result == ValidationAccept || result == ValidationIgnore || result == validationThrottled)
+//@   loop 2 invariant nosingle: calls((*validation).validateSingleTopic) == old(calls((*validation).validateSingleTopic))
+//@   ensures range: result == ValidationAccept || result == ValidationReject || result == ValidationIgnore || result == validationThrottled
+//@   ensures single: len(vals) == 1 ==> calls((*validation).validateSingleTopic) == old(calls((*validation).validateSingleTopic)) + 1 &&
+//@        result == lastret((*validation).validateSingleTopic)
+//@   ensures reject-wins: len(vals) != 1 ==> (result == ValidationReject) == (rcv(ValidationReject) > 0)
+//@   ensures throttled-next: len(vals) != 1 && rcv(ValidationReject) == 0 ==> (result == validationThrottled) == (rcv(validationThrottled) > 0)
+//@   ensures ignore-next: len(vals) != 1 && rcv(ValidationReject) == 0 && rcv(validationThrottled) == 0 ==> (result == ValidationIgnore) == (rcv(ValidationIgnore) > 0)
+
+// doValidateTopic: the final verdict is the asynchronous verdict unless that is Accept and the
+// inline stage said Ignore; onValid runs iff the final verdict is Accept; every other verdict is
+// traced with its reject reason; the default branch (panic) is unreachable.
+//@ func (*validation).doValidateTopic
+//@   property C04
+//@   dynpure onValid
+//@   safe
+//@   requires inline-verdict: r == ValidationAccept || r == ValidationIgnore
+//@   requires nonnil: v.p != nil && v.p.logger != nil && msg != nil
+//@   noframe
+//@   ensures onvalid-iff-accept: nOnValid() == ite(lastret((*validation).validateTopic) == ValidationAccept && r == ValidationAccept, 1, 0)
+//@   ensures onvalid-msg: nOnValid() == 1 ==> lastarg(dyn:onValid, 0) == msg
+//@   ensures traced-unless-accept: nRejTrace() == 1 - nOnValid()
+//@   ensures reject-reason: lastret((*validation).validateTopic) == ValidationReject ==> lastarg((*pubsubTracer).RejectMessage, 2) == RejectValidationFailed
+//@   ensures ignore-reason: lastret((*validation).validateTopic) == ValidationIgnore || (lastret((*validation).validateTopic) == ValidationAccept && r == ValidationIgnore) ==>
+//@        lastarg((*pubsubTracer).RejectMessage, 2) == RejectValidationIgnored
+//@   ensures throttle-reason: lastret((*validation).validateTopic) == validationThrottled ==> lastarg((*pubsubTracer).RejectMessage, 2) == RejectValidationThrottled
+
+//@ func (*validation).validateSignature
+//@   property C03
+//@   requires msg: msg != nil && msg.Message != nil
+//@   noframe
+//@   ensures verified: calls(verifyMessageSignature) == old(calls(verifyMessageSignature)) + 1 && lastarg(verifyMessageSignature, 0) == msg.Message
+//@   ensures verdict: result == (lastret(verifyMessageSignature) == nil)
+
+// Push: the fast path (no validation at all) is taken only for messages without signature and
+// without applicable validators.
+//@ func (*validation).Push
+//@   property C03 C04
+//@   requires msg: msg != nil
+//@   noframe
+//@   ensures fast-path: result == (len(lastret((*validation).getValidators)) == 0 && old(msg.Message.Signature) == nil)
+//@   ensures validators: calls((*validation).getValidators) == old(calls((*validation).getValidators)) + 1 && lastarg((*validation).getValidators, 1) == msg
+
+// ValidateLocal: exactly one PUBLISH_MESSAGE trace event; policy check, then synchronous validation.
+//@ func (*validation).ValidateLocal
+//@   property C04 C19
+//@   requires msg: msg != nil && msg.Message != nil
+//@   noframe
+//@   ensures publish-traced: calls((*pubsubTracer).PublishMessage) == old(calls((*pubsubTracer).PublishMessage)) + 1 && lastarg((*pubsubTracer).PublishMessage, 1) == msg
+//@   ensures policy-error: lastret((*PubSub).checkSigningPolicy) != nil ==> result == lastret((*PubSub).checkSigningPolicy) &&
+//@        calls((*validation).validate) == old(calls((*validation).validate))
+//@   ensures synchronous: lastret((*PubSub).checkSigningPolicy) == nil ==> calls((*validation).validate) == old(calls((*validation).validate)) + 1 &&
+//@        lastarg((*validation).validate, 4) && lastarg((*validation).validate, 3) == msg && result == lastret((*validation).validate)
